@@ -249,13 +249,13 @@ fn configs(tier: Tier) -> Vec<(Prog, usize, Option<usize>)> {
         Tier::Thorough => vec![
             (Prog::Chain2, 1, None),
             (Prog::Chain2, 2, None),
-            (Prog::Chain2, 3, Some(3)),
+            (Prog::Chain2, 3, Some(2)),
             (Prog::Chain2Window, 2, None),
-            (Prog::Chain2Window, 3, Some(3)),
-            (Prog::Chain2Window, 4, Some(2)),
+            (Prog::Chain2Window, 3, Some(2)),
+            (Prog::Chain2Window, 4, Some(1)),
             (Prog::Chain3, 1, None),
-            (Prog::Chain3, 2, Some(3)),
-            (Prog::Chain3, 3, Some(2)),
+            (Prog::Chain3, 2, Some(2)),
+            (Prog::Chain3, 3, Some(1)),
         ],
     }
 }
